@@ -69,3 +69,22 @@ Print Assumptions C03_refuted_dust_fee_old_rule.
 Print Assumptions C03_none_dropped_or_duplicated.
 Print Assumptions C03_amount_and_kind.
 Print Assumptions C03_only_fee_of_transfer.
+
+(** SOURCE TIE (fee split).  The guard of ods_parser._create_and_process_transaction, re-read from the source on every run as
+    a boolean expression over named predicates (Generated.gen_split_guard; InTransaction.is_crypto_fee_defined is translated
+    too) and interpreted by Model/SplitGen.v, is the test of the parser model: an acquisition is split exactly when its crypto
+    fee is positive -- whatever its type (an earn-typed acquisition with a crypto fee still gets its artificial FEE disposal,
+    which is a taxable event).  A guard with a further conjunct (`and not transaction.is_taxable()`) stops compiling here. *)
+From RP2V Require Import Model.Parser Model.SplitGen Proofs.SplitGenProofs.
+Theorem C03_source_tie_fee_split_guard :
+  forall tx, ev_guard gen_split_guard tx = match tx with TIn a => 0 <? i_crypto_fee a | _ => false end.
+Proof. exact split_guard_agrees. Qed.
+Print Assumptions C03_source_tie_fee_split_guard.
+
+(** SOURCE TIE (tax engine).  Which sets tax_engine._create_unfiltered_taxable_event_set scans, in which order, and the
+    predicate that selects a transaction are re-read from the source on every run (Generated.gen_te_scan / gen_te_filter);
+    interpreted by Model/TaxEngineGen.v they are the taxable-event list of the model *)
+From RP2V Require Import Model.TaxEngineGen Proofs.TaxEngineGenProofs.
+Theorem C03_source_tie_taxable_event_set : forall t, taxable_events_gen t = taxable_events t.
+Proof. exact taxable_events_gen_agrees. Qed.
+Print Assumptions C03_source_tie_taxable_event_set.
